@@ -75,6 +75,12 @@ fn common_assumptions(report: &mut Report) {
     ]);
 }
 
+/// Thorough tier: the build without debug assertions explores the largest profiles one level
+/// shallower (the two builds together must fit the time a thorough check may take).
+fn dd(d: usize) -> usize {
+    if cfg!(debug_assertions) { d } else { d - 1 }
+}
+
 pub fn run_property(prop: &str, tier: &str, threads: usize, budget: &Budget, findings: &Findings, report: &mut Report) {
     let seed: u64 = std::env::var("VERIF_SEED").ok().and_then(|s| s.parse().ok()).unwrap_or(0);
     let env = Env { seed, prop, tier, threads, budget, findings };
@@ -91,7 +97,7 @@ pub fn run_property(prop: &str, tier: &str, threads: usize, budget: &Budget, fin
     match prop {
         "C01" => {
             report.rule = "every operation history over the profile's alphabet up to the stated depth, executed on the real crate next to a String model; a state is the exact canonical pool (raw inline bytes, whole heap buffers incl. stale tails, capacities, reference counts, sharing graph); distinct = distinct canonical state".into();
-            let (dw, dt, ds, di, dsh, dst, dinl) = if quick { (4, 4, 3, 3, 4, 4, 5) } else { (6, 5, 4, 3, 5, 6, 8) };
+            let (dw, dt, ds, di, dsh, dst, dinl) = if quick { (4, 4, 3, 3, 4, 4, 5) } else { (dd(6), dd(5), dd(4), 3, 5, dd(6), 7) };
             if !quick {
                 determinism_selfcheck(&env, report, &wide, 4);
             }
@@ -105,7 +111,7 @@ pub fn run_property(prop: &str, tier: &str, threads: usize, budget: &Budget, fin
         }
         "C02" => {
             report.rule = "same graph as C01 incl. failing and panicking operations; oracle: every handle that is not the target of the step is bit-identical (text, length, pointer, capacity, raw words) before and after; 'static bytes pristine; sentinels around every handle intact".into();
-            let (dw, ds, dsh, dst) = if quick { (4, 3, 4, 4) } else { (5, 4, 6, 6) };
+            let (dw, ds, dsh, dst) = if quick { (4, 3, 4, 4) } else { (5, dd(4), dd(6), dd(6)) };
             bfs(&env, report, &wide, Roots::Empty, dw, props, true);
             bfs(&env, report, &wide, Roots::Seeds, ds, props, true);
             bfs(&env, report, &share, Roots::Seeds, dsh, props, true);
@@ -116,7 +122,7 @@ pub fn run_property(prop: &str, tier: &str, threads: usize, budget: &Budget, fin
         }
         "C03" => {
             report.rule = "same graph as C01 with operations that fail without fault injection (huge reservations, huge size hints, bad indices, panicking predicates); shadow heap checked after every step (refcount == live handles, live blocks == referenced buffers, no access outside a live block, layouts repeated, guards and poison intact); every new state is closed in all K rotation orders and must leave zero live blocks".into();
-            let (dw, dt, ds, dsh, dst) = if quick { (4, 3, 3, 4, 4) } else { (5, 5, 4, 6, 6) };
+            let (dw, dt, ds, dsh, dst) = if quick { (4, 3, 3, 4, 4) } else { (5, dd(5), dd(4), dd(6), dd(6)) };
             bfs(&env, report, &wide, Roots::Empty, dw, props, true);
             bfs(&env, report, &wide_try, Roots::Empty, dt, props, true);
             bfs(&env, report, &wide, Roots::Seeds, ds, props, true);
@@ -185,7 +191,7 @@ pub fn run_property(prop: &str, tier: &str, threads: usize, budget: &Budget, fin
         }
         "C08" => {
             report.rule = "every clone / clone_from / assignment / From<&LeanString> / to_lean_string(LeanString) transition of the explored graph: zero allocator requests, same pointer (heap, static) or bitwise copy (inline), reference count +1, exactly the one expected release for clone_from; plus a sweep over lengths 0..=80,100,1000,4096(,65536,1 MiB) x 7 storage states x 5 cloning methods x clone counts x 3 drop orders".into();
-            let (dw, ds, dsh) = if quick { (4, 3, 4) } else { (5, 4, 6) };
+            let (dw, ds, dsh) = if quick { (4, 3, 4) } else { (5, dd(4), dd(6)) };
             bfs(&env, report, &wide, Roots::Empty, dw, props, true);
             bfs(&env, report, &wide, Roots::Seeds, ds, props, true);
             bfs(&env, report, &share, Roots::Seeds, dsh, props, true);
@@ -197,7 +203,7 @@ pub fn run_property(prop: &str, tier: &str, threads: usize, budget: &Budget, fin
         }
         "C09" => {
             report.rule = "inline profile: every history of edits that keeps the text within the inline limit (K=2) - no allocator request, storage stays inline; every constructor transition of the wide graph; constructor sweep: every text over the four widths up to the stated length, every possible 16th byte (192 x 3 shapes + 128 ASCII), lengths 17..=80/100/1000/65536 through 10 constructors; every char; both bools; every digit count of every integer type".into();
-            let (dinl, dw) = if quick { (6, 4) } else { (8, 5) };
+            let (dinl, dw) = if quick { (6, 4) } else { (dd(8), dd(5)) };
             bfs(&env, report, &inline, Roots::Empty, dinl, props, true);
             bfs(&env, report, &wide, Roots::Empty, dw, props, true);
             bfs(&env, report, &wide_try, Roots::Empty, dw, props, true);
@@ -209,7 +215,7 @@ pub fn run_property(prop: &str, tier: &str, threads: usize, budget: &Budget, fin
         }
         "C10" => {
             report.rule = "static profile: every history over handles built by from_static_str (texts of 16, 17 and 40 bytes with mixed widths) plus one heap text; after every step the harness-owned writable 'static buffers are compared with pristine copies; from_static_str / clone / pop / truncate / clear must issue no allocator request and keep pointing at the caller's bytes".into();
-            let (dst, dw, ds) = if quick { (5, 4, 3) } else { (7, 5, 4) };
+            let (dst, dw, ds) = if quick { (5, 4, 3) } else { (dd(7), dd(5), dd(4)) };
             bfs(&env, report, &statics, Roots::Empty, dst, props, true);
             bfs(&env, report, &statics, Roots::Seeds, ds, props, true);
             bfs(&env, report, &wide, Roots::Empty, dw, props, true);
@@ -217,7 +223,7 @@ pub fn run_property(prop: &str, tier: &str, threads: usize, budget: &Budget, fin
         }
         "C11" => {
             report.rule = "every transition of the explored graph: capacity >= len for every handle; with_capacity(n) >= n; successful reserve(n): capacity >= len+n and storage exclusively owned; appends/inserts that fit the capacity reported just before on an exclusively owned target: zero allocator requests and the text does not move".into();
-            let (dw, dt, ds, dsh) = if quick { (4, 4, 3, 4) } else { (5, 5, 4, 6) };
+            let (dw, dt, ds, dsh) = if quick { (4, 4, 3, 4) } else { (5, dd(5), dd(4), dd(6)) };
             bfs(&env, report, &wide, Roots::Empty, dw, props, true);
             bfs(&env, report, &wide_try, Roots::Empty, dt, props, true);
             bfs(&env, report, &wide, Roots::Seeds, ds, props, true);
@@ -225,7 +231,7 @@ pub fn run_property(prop: &str, tier: &str, threads: usize, budget: &Budget, fin
         }
         "C12" => {
             report.rule = "every growth event (single-reservation operation with old_len + additional > old_capacity whose result is a heap buffer) of the explored graph: old_len + old_len/2 <= new_capacity <= max(old_len + old_len/2, old_len + additional); sweep reserve/push_str/insert_str of 1..=N bytes on lengths 0..=N in 7 storage states; four push-one-char loops observing every prefix: allocator requests never exceed the slowest growth the statement permits, bytes copied <= 3*n*w+64".into();
-            let (dw, ds, dst) = if quick { (4, 3, 4) } else { (5, 4, 6) };
+            let (dw, ds, dst) = if quick { (4, 3, 4) } else { (5, dd(4), dd(6)) };
             bfs(&env, report, &wide, Roots::Empty, dw, props, true);
             bfs(&env, report, &wide, Roots::Seeds, ds, props, true);
             bfs(&env, report, &statics, Roots::Empty, dst, props, true);
@@ -254,7 +260,7 @@ pub fn run_property(prop: &str, tier: &str, threads: usize, budget: &Budget, fin
         }
         "C17" => {
             report.rule = "in every state of the explored graph: all ordered pairs of live handles (==, !=, cmp, partial_cmp, <, >=, Hash with a fixed-key hasher) and every handle against str/&str/String/Cow in both orders, Display/Debug/padding, Borrow/AsRef/Deref, HashMap/BTreeMap lookups by &str and iteration order, all compared with the same operations on the model strs; representation zoo: texts x 9 construction routes, all pairs".into();
-            let (dw, ds, dsh) = if quick { (4, 2, 4) } else { (5, 3, 6) };
+            let (dw, ds, dsh) = if quick { (4, 2, 4) } else { (dd(5), 3, dd(6)) };
             bfs(&env, report, &wide, Roots::Empty, dw, props, true);
             bfs(&env, report, &wide, Roots::Seeds, ds, props, true);
             bfs(&env, report, &share, Roots::Seeds, dsh, props, true);
